@@ -182,6 +182,11 @@ def split_ms(rest):
     return rest[2:i], rest[i + 3:]
 
 
+class DeriveDoesNotBuild(RuntimeError):
+    """the derive crate itself does not compile when it is built as a dependency of a user crate (its own workspace may still build:
+    features of shared dependencies are unified differently there)"""
+
+
 def run_stage(corpus, tier, profile="dev", tag=None, log=print, translated=True):
     """returns a result dict (JSON-serialisable)"""
     t0 = time.time()
@@ -203,6 +208,8 @@ def run_stage(corpus, tier, profile="dev", tag=None, log=print, translated=True)
         removed = 0
         for tgt, errs in failing.items():
             if not tgt.startswith("b"):
+                if (os.environ.get("VERIF_REPO", "/repo").rstrip("/") + "/src/") in errs[0][1]:
+                    raise DeriveDoesNotBuild(errs[0][1])
                 raise RuntimeError(f"harness lib failed to build: {errs[0][1]}")
             k = int(tgt[1:])
             ranges = subject_line_ranges(crate_dir, k, bins[k])
